@@ -243,6 +243,31 @@ func report(p *Prog, run *propRun, opts checkOpts, diags []string, wall time.Dur
 			staleFns[r.Key] = true
 		}
 	}
+	staleReported := map[string]bool{}
+	fnOf := func(name string) string {
+		if i := strings.Index(name, "#"); i >= 0 {
+			return name[:i]
+		}
+		return name
+	}
+	for _, r := range run.results {
+		if !staleFns[r.Key] {
+			continue
+		}
+		// only an alarm if something of this function was proved on the pinned tree
+		had := false
+		for n, s := range base {
+			if s == "discharged" && fnOf(n) == r.Key {
+				had = true
+			}
+		}
+		if had {
+			why := strings.Join(append(append([]string{}, r.ContractErrs...), r.OutOfSubset...), "; ")
+			o := &Obligation{Name: r.Key + "#contract", Status: "undecided", Model: why}
+			violate(o, r.Key+"#contract", "the contract of this function can no longer be checked against the source: "+why)
+			staleReported[r.Key] = true
+		}
+	}
 	// 2. baseline obligations must still be discharged
 	var baseNames []string
 	for n := range base {
@@ -252,6 +277,10 @@ func report(p *Prog, run *propRun, opts checkOpts, diags []string, wall time.Dur
 	claimed, discharged := 0, 0
 	for _, n := range baseNames {
 		if base[n] != "discharged" {
+			continue
+		}
+		if staleReported[fnOf(n)] {
+			claimed++
 			continue
 		}
 		o := cur[n]
